@@ -25,6 +25,7 @@ struct TextPool {
 extern TextPool g_pool;
 void pool_build();
 bool font_has_just(const FontImage &fi);
+bool font_has_just_passes(const FontImage &fi);
 
 std::vector<u32> gen_text(Rng &r, const std::string &font, size_t maxlen, bool adversarial = true);
 std::string gen_font(Rng &r, bool allow_big = true);
